@@ -156,7 +156,7 @@ def run(ctx: core.Ctx):
     coords = {"time": t, "y": np.arange(cube.shape[1]) * 1.5, "x": np.arange(cube.shape[2]) * 2.0,
               # time-independent non-dimension coordinates, as geospatial cubes carry them
               "spatial_ref": 4326, "lon": (("y", "x"), xx2 + 30.0), "lat": (("y", "x"), 10.0 - yy2)}
-    base = xr.DataArray(cube, dims=("time", "y", "x"), coords=coords, attrs={"nodata": nd})
+    base = xr.DataArray(cube.copy(), dims=("time", "y", "x"), coords=coords, attrs={"nodata": nd})
     ops_ = operations(nt)
     chunkings = [{"y": 1, "x": 1}, {"y": (2, 1), "x": (1, 3)}, {"y": -1, "x": -1}]
     scheds = [("synchronous", None), ("threads", 1), ("threads", 4)] + ([] if ctx.quick else [("threads", 16)])
@@ -168,6 +168,15 @@ def run(ctx: core.Ctx):
             ctx.fail(name, dict(config="eager numpy"), repr(e), "no exception")
             continue
         ref = ref.compute()
+        # neither the cube nor its attributes are touched by an operation, and asking again gives the same answer (no hidden state)
+        if not (np.array_equal(np.asarray(base), cube) and base.attrs == {"nodata": nd}):
+            ctx.fail(name, dict(config="eager numpy"), "the input cube or its attributes were modified", "inputs are left as they were")
+            base = xr.DataArray(cube.copy(), dims=("time", "y", "x"), coords=coords, attrs={"nodata": nd})
+        try:
+            if not same(ref, op(base).compute()):
+                ctx.fail(name, dict(config="eager numpy, second call on the same object"), "differs from the first call", "the same result")
+        except Exception as e:  # noqa: BLE001
+            ctx.fail(name, dict(config="second call"), repr(e)[:160], "no exception")
         for order in orders:
             dord = base.transpose(*order)
             try:
